@@ -41,8 +41,12 @@ def gen(tier, seed, shard, nshards):
         rng = util.rng_for("C02", seed, k)
         p = int(rng.integers(1, 9)) if k % 3 else int(rng.integers(9, 15))
         out = gmat.random_dag_masks(rng, p)
-        style = k % 4
-        if style == 0:
+        style = k % 6
+        if style == 4:
+            A = gmat.weighted(rng, out, "tiny")                       # minute next to ordinary weights: still edges
+        elif style == 5:
+            A = gmat.weighted(rng, out, "signed") * (10.0 ** rng.integers(-9, 10, size=(p, p)))   # 18 orders of magnitude in one matrix
+        elif style == 0:
             A = gmat.to_np(out, dtype=int)
         elif style == 1:
             A = gmat.weighted(rng, out, "cancel")
